@@ -16,6 +16,7 @@ package fhir
 // C15: a FHIR Time is a time of day: the microseconds of the instant within its (UTC) day,
 // always in [0, 24h), at microsecond precision
 //@ func Time(t) (res)
+//@   fresh res
 //@   let rep = fits(fdiv(tInst(t), 1000), int64(0))
 //@   ensures res != nil
 //@   ensures rep ==> 0 <= res.ValueUs && res.ValueUs < 86400000000
@@ -37,11 +38,13 @@ package fhir
 
 // C15: Date/DateTime elements carry the instant in microseconds and the offset of the Time
 //@ func Date(t) (res)
+//@   fresh res
 //@   ensures res != nil && res.Precision == dtpb.Date_DAY
 //@   ensures fits(fdiv(tInst(t), 1000), int64(0)) ==> int(res.ValueUs) == fdiv(tInst(t), 1000)
 //@   defines res.Timezone == tzS(t)
 //@   assigns nothing
 //@ func DateTime(t) (res)
+//@   fresh res
 //@   ensures res != nil && res.Precision == dtpb.DateTime_MICROSECOND
 //@   ensures fits(fdiv(tInst(t), 1000), int64(0)) ==> int(res.ValueUs) == fdiv(tInst(t), 1000)
 //@   defines res.Timezone == tzS(t)
